@@ -2,6 +2,7 @@ package engine
 
 import (
 	"fmt"
+	"hash/crc32"
 
 	"verifsim/ref"
 	"verifsim/simdisk"
@@ -286,6 +287,18 @@ func editResync(r *Run) {
 			if c.Zeros {
 				ins = make([]byte, c.L)
 				r.Probe("zero-extended")
+			}
+			if r.SweepCase < 0 && !c.Zeros && c.S >= 8 && c.L >= 4 && c.L < c.S && c.P+c.S-c.L <= len(a) && len(a) >= 2*c.S && t.Bool(1, 5, "forged-window") {
+				// the inserted bytes are chosen so that the window starting at
+				// the insertion has the CRC-32 of some protected slice (but
+				// not its content): a checksum look-alike right in front of a
+				// surviving slice
+				win := append(append([]byte(nil), ins...), a[c.P:c.P+c.S-c.L]...)
+				k := t.Draw(len(a)/c.S, "lookalike-of")
+				if forgeCRCAt(win, c.L-4, crc32.ChecksumIEEE(a[k*c.S:(k+1)*c.S])) && string(win) != string(a[k*c.S:(k+1)*c.S]) {
+					copy(ins, win[:c.L])
+					r.Probe("crc-lookalike-window-before-surviving-slice")
+				}
 			}
 			edited = append(append(append([]byte(nil), a[:c.P]...), ins...), a[c.P:]...)
 			desc = fmt.Sprintf("insert %d bytes at %d", c.L, c.P)
